@@ -292,7 +292,12 @@ class Engine:
                 return tr(v)
         if isinstance(v, tuple):
             return z3.BoolVal(len(v) > 0)
-        if isinstance(v, (MObj, Closure, PyConst)):
+        if isinstance(v, MObj):
+            k = self.reg.lookup_method(v.cls, "__bool__")
+            if k is not None:
+                return k(self, v)
+            return z3.BoolVal(True)
+        if isinstance(v, (Closure, PyConst)):
             return z3.BoolVal(True)
         raise OutOfSubset(node, f"truthiness of {v!r}")
 
@@ -457,7 +462,15 @@ class Engine:
         if isinstance(op, (ast.Eq, ast.NotEq)):
             r = self.equal(a, b, n, st)
             return r if isinstance(op, ast.Eq) else z3.Not(r)
+        if isinstance(a, V) and isinstance(a.ty, TOpt) and a.ty.t in (TInt, TReal):
+            self.require(st, "safe.none", n, a.ty.sort().is_some(a.t), "TypeError")
+            a = V(a.ty.t, a.ty.sort().v(a.t))
+        if isinstance(b, V) and isinstance(b.ty, TOpt) and b.ty.t in (TInt, TReal):
+            self.require(st, "safe.none", n, b.ty.sort().is_some(b.t), "TypeError")
+            b = V(b.ty.t, b.ty.sort().v(b.t))
         if isinstance(a, V) and isinstance(b, V):
+            if a.ty is TBool and b.ty is TBool:
+                a, b = V(TInt, z3.If(a.t, 1, 0)), V(TInt, z3.If(b.t, 1, 0))
             if a.ty in (TInt, TReal) and b.ty in (TInt, TReal):
                 x, y = a.t, b.t
                 return {ast.Lt: x < y, ast.LtE: x <= y, ast.Gt: x > y, ast.GtE: x >= y}[type(op)]
@@ -476,6 +489,9 @@ class Engine:
                 return other.ty.sort().is_none(other.t)
             return z3.BoolVal(False)
         if isinstance(a, V) and isinstance(b, V):
+            for x, y in ((a, b), (b, a)):
+                if isinstance(x.ty, TOpt) and isinstance(x.ty.t, TEnum) and x.ty.t == y.ty:
+                    return z3.And(x.ty.sort().is_some(x.t), x.ty.sort().v(x.t) == y.t)
             if isinstance(a.ty, TEnum) and a.ty == b.ty:
                 return a.t == b.t
             if a.ty is TBool and b.ty is TBool:
@@ -1133,6 +1149,8 @@ class Engine:
             k = self.reg.lookup_method(f.ty.name, "__call__")
             if k is not None:
                 return self.apply_contract(k, [f] + args, kwargs, n, st)
+        if isinstance(f, PyConst) and callable(self.c.globals.get(f.name + ".__call__")):
+            return self.c.globals[f.name + ".__call__"](self, args, kwargs, n, st)
         if isinstance(f, PyConst):
             k = self.c.calls.get(f.name) or self.reg.lookup_function(f.name)
             if k is not None:
@@ -1185,6 +1203,8 @@ class Engine:
         st.fresh_n = sub.fresh_n
         if k.returns is None:
             res = V(TNone, None)
+        elif k.returns == "self":
+            res = args[0]
         elif callable(k.returns) and not isinstance(k.returns, Ty):
             res = k.returns(self, st, env)
         else:
@@ -1216,6 +1236,9 @@ class Engine:
         if k.modifies:
             recv = args[0] if args else None
             if isinstance(recv, MObj):
+                pnames = list(k.params)
+                if pnames:
+                    sub.env["old_" + pnames[0]] = recv.copy()
                 for a in k.modifies:
                     sub.env["old_" + a] = recv.attrs[a]
                     recv.attrs[a] = self.fresh_like(st, recv.attrs[a], f"m_{a}")
@@ -1333,6 +1356,11 @@ class Engine:
                 raise OutOfSubset(node, "yield without `yields` type in the contract")
             st.yielded = V(TSeq(ety), SQ.empty(TSeq(ety).sort()))
         ety = st.yielded.ty.elem
+        if isinstance(v, MObj) and isinstance(ety, TRec):
+            snap = self.fresh(st, ety, "snap")
+            for f_, fty in ety.fields.items():
+                st.assume(ety.field_fn(f_)(snap.t) == self.coerce(v.attrs[f_], fty, node).t)
+            v = snap
         st.yielded = V(st.yielded.ty, SQ.append1(st.yielded.t, self.coerce(v, ety, node).t))
 
     def do_yield_from(self, st, v, node):
@@ -1374,6 +1402,9 @@ class Engine:
             base = self.ev(tgt.value, st)
             attr = self.mangle(tgt.attr)
             if isinstance(base, MObj):
+                setter = self.reg.lookup_method(base.cls, attr + ".setter")
+                if setter is not None:
+                    val = setter(self, base, val, node, st)
                 if self.c.frame is not None and isinstance(tgt.value, ast.Name) and tgt.value.id in self.c.frame_objects:
                     self.oblige(st, "frame", node, z3.BoolVal(attr in self.c.frame), f"store to {tgt.value.id}.{attr} outside modifies={sorted(self.c.frame)}")
                 old = base.attrs.get(attr)
